@@ -26,7 +26,7 @@ type c17Spec struct {
 func c17Cases(tier string, seed uint64, flavor string) []lib.Case {
 	n := 24
 	if tier == "thorough" {
-		n = 120
+		n = 1200
 	}
 	comps := lib.FastComps()[:3]
 	comps = []lib.Comp{{Algo: "none"}, {Algo: "gzip", Quality: 6}, {Algo: "brotli", Quality: 1}}
